@@ -457,7 +457,14 @@ def cold_jobs():
             dec('from_bytes', 'sysex', {'data': (9, 8)})]
     firsts = [[dec('from_bytes', *pw)], [enc(*pw)], [dec('from_hex', *sp), enc(*qf)], [dec('from_bytes_b', *sx), enc(*no)],
               same]
-    return [{'modules': COLD_MODULES, 'jobs': [f, others], 'k': 1} for f in firsts]
+    jobs = [{'modules': COLD_MODULES, 'jobs': [f, others], 'k': 1} for f in firsts]
+    # steady state, and the very same strings in both threads: whatever is remembered from one call to the next (the last
+    # message, a table of recent ones) is read by one thread while the other is half way through replacing it
+    x, y, z = dec('from_bytes', *no), dec('from_bytes', *cc), dec('from_bytes', *pw2)
+    ex, ey = enc(*no), enc(*pw2)
+    jobs.append({'modules': COLD_MODULES, 'fresh': False, 'jobs': [[x, y, x, z], [y, x, z, y]], 'k': 1})
+    jobs.append({'modules': COLD_MODULES, 'fresh': False, 'jobs': [[ex, ey, x], [ey, ex, y]], 'k': 1})
+    return jobs
 
 
 def phase_g(ctx):
@@ -503,7 +510,22 @@ def phase_f(ctx):
     ctx.count('cases', coldstart.phase(ctx, cold_jobs(), 'cold-start schedules == ref'))
 
 
+def hash_twins(ctx):
+    """Values CPython hashes alike (-1 and -2) in one process, both orders, all channels: a table keyed by hash(...)
+    instead of by the values hands one message the other's bytes.  (The exhaustive phase deals consecutive pitch values
+    to different shards, i.e. different processes.)"""
+    n = 0
+    for ch in range(16):
+        for order in ((-1, -2), (-2, -1)):
+            for p in order:
+                check_message(ctx, 'pitchwheel', {'channel': ch, 'pitch': p}, ch, 0.5)
+                n += 1
+    ctx.nontrivial(None, n)
+    ctx.count('cases', n)
+
+
 def run(ctx):
+    hash_twins(ctx)
     phase_a(ctx)
     phase_b(ctx)
     phase_e(ctx)
